@@ -110,6 +110,10 @@ def toks_text(toks, rng=None):
         out.append(s)
         if s == ']':
             infeat = False
+    if rng is not None:
+        # blanks before and after the whole text (a bare atom has no bracket or slash to put blanks around)
+        out.insert(0, ' ' * rng.choice((0, 0, 0, 1, 2)))
+        out.append(' ' * rng.choice((0, 0, 0, 1, 2)))
     return ''.join(out)
 
 
